@@ -216,6 +216,27 @@ func runC20(c *Ctx) {
 		ok, det := lookupShape(fn, compField, parentField)
 		c.Check(ok, "C20.4-lookup-order", FuncName(fn)+"|local-first-then-parents", p.Pos(fn.Pos()), det)
 	}
+	// the parent link: written only by ChildApp, and always to the app ChildApp
+	// was called on (a child resolves through *every* ancestor)
+	{
+		childApp := p.Func("app:(*App).ChildApp")
+		c.Fn(FuncName(childApp))
+		ws := FieldWrites(p.RepoFuncs(), parentField)
+		for _, w := range ws {
+			ok := TopFunc(w.Fn) == childApp
+			det := "App.parent written in " + FuncName(w.Fn)
+			if ok {
+				vals, unk := Origins(w.Val)
+				ok = !unk && len(vals) == 1 && vals[0] == ssa.Value(childApp.Params[0])
+				det += "; the value is ChildApp's receiver"
+				if !ok {
+					det = "App.parent is set to something other than the app ChildApp was called on: intermediate containers are skipped by lookups"
+				}
+			}
+			c.Check(ok, "C20.4-parent-link", FuncName(w.Fn)+"|App.parent", p.Pos(InstrPos(w.Instr)), det)
+		}
+		c.Min("C20.4-parent-link", 1)
+	}
 	// generic instantiations share the body; MustComponent delegates
 	for _, spec := range []string{"app:(*App).MustComponent", "app:MustComponent"} {
 		fn := p.Func(spec)
